@@ -190,9 +190,19 @@ def execute(case):
     pristine_file = {}
     for op in case["ops"]:
         if op["k"] in ("load_check", "failed_load"):
-            data_, n = file_bytes(op.get("t", 0))
-            if n not in pristine_file:
-                pristine_file[n] = obj_digest(load_bytes(data_))
+            try:
+                data_, n = file_bytes(op.get("t", 0))
+                if n not in pristine_file:
+                    pristine_file[n] = obj_digest(load_bytes(data_))
+            except (KeyboardInterrupt, HarnessTimeout):
+                raise
+            except Exception as e:
+                if not env.raised_in_rv(e):
+                    raise
+                # a valid file does not even load in the pristine process: there is no reference to
+                # compare with; report it and stop (it is the library's reaction, not a harness bug)
+                return {"violations": [_v("unexpected_exception", after="reference_load", exc=type(e).__name__, detail={"msg": str(e)[:120]})],
+                        "fired": {}, "probes": {}, "nontrivial": [], "states": [], "digest": seeds.digest("reference_load_failed", type(e).__name__), "outcome": [], "steps": 0}
     # the reference objects are garbage now, but they are reference cycles (module <-> project): collect
     # them, so that no weakly-held leftover of the reference run is around when the history starts
     import gc
@@ -348,6 +358,32 @@ def execute(case):
                 check_others(ai, i, "writer_step")
                 seq.append(ai)
                 log.append((i, "writer_step", ai))
+            elif k == "writers":
+                # two actors save at the same time: their chunks() generators are advanced alternately
+                # under a seeded schedule, to completion, with nothing else happening in between
+                bi = op.get("b", 1) % len(actors)
+                pair = [x for x in (a, actors[bi]) if isinstance(x["obj"], (Project, Synth))]
+                if len(pair) == 2 and pair[0] is not pair[1]:
+                    gens = [x["obj"].chunks() for x in pair]
+                    outs = [simio.SimFile(Ctx(()), 0, b"", "arg", "w") for _ in pair]
+                    done = [False, False]
+                    sched = op.get("schedule", 0)
+                    step = 0
+                    while not all(done):
+                        who = (sched >> (step % 60)) & 1
+                        if done[who]:
+                            who = 1 - who
+                        step += 1
+                        try:
+                            write_chunk(outs[who], *next(gens[who]))
+                        except StopIteration:
+                            done[who] = True
+                    fired["writer_interleaving"] = fired.get("writer_interleaving", 0) + 1
+                    for x, out in zip(pair, outs):
+                        if seeds.digest(out.getvalue()) != x["bytes"]:
+                            violations.append(_v("suspended_writer_equals_plain", type=type_of(x["obj"]), detail={"op": i, "mode": "two writers interleaved"}))
+                    check_others(None, i, "writers")
+                log.append((i, "writers", ai, bi))
             elif k == "construct_check":
                 kind = op.get("kind", "module")
                 obj = construct(kind, op.get("t", 0))
@@ -376,7 +412,16 @@ def execute(case):
             elif k == "load_check":
                 # a clean load of a fixture must give what it gave in the pristine process state
                 data_, n = file_bytes(op.get("t", 0))
-                snap, b = obj_digest(load_bytes(data_))
+                try:
+                    snap, b = obj_digest(load_bytes(data_))
+                except (KeyboardInterrupt, HarnessTimeout):
+                    raise
+                except Exception as e:
+                    if not env.raised_in_rv(e):
+                        raise
+                    violations.append(_v("later_load_equals_pristine_load", path="raises:" + type(e).__name__, detail={"op": i, "file": n, "msg": str(e)[:120]}))
+                    log.append((i, "load_check", n, "raises"))
+                    continue
                 ref = pristine_file[n]
                 d = snapshot.diff(ref[0], snap, limit=5)
                 if d or b != ref[1]:
@@ -459,8 +504,10 @@ def generate(seed, i, tier="quick"):
             ops.append({"k": "mutate", "a": a, "s": r.randrange(100000), "v": r.getrandbits(62), "bop": builder.gen_op(r)})
         elif x < 0.70:
             ops.append({"k": "save", "a": a})
-        elif x < 0.85:
+        elif x < 0.79:
             ops.append({"k": "writer_step", "a": a, "n": r.randrange(40)})
+        elif x < 0.85:
+            ops.append({"k": "writers", "a": a, "b": r.randrange(4), "schedule": r.choice([0x555555555555555, 0x333333333333333, r.getrandbits(60), r.getrandbits(60)])})
         elif x < 0.93:
             ops.append({"k": "construct_check", "kind": focus_kind if r.random() < 0.7 else r.choice(KINDS), "t": focus_t if r.random() < 0.7 else r.randrange(1000)})
         elif x < 0.955:
